@@ -263,6 +263,15 @@ def _listener(ctx, *a, **k):
 def make_wsgi(family, calls):
     if family == 'soap11':
         inp, outp = Soap11(validator='soft'), Soap11()
+    elif family == 'soap12':
+        from spyne.protocol.soap import Soap12
+        inp, outp = Soap12(validator='soft'), Soap12()
+    elif family == 'yaml':
+        from spyne.protocol.yaml import YamlDocument
+        inp, outp = YamlDocument(validator='soft'), YamlDocument()
+    elif family == 'msgpack':
+        from spyne.protocol.msgpack import MessagePackDocument
+        inp, outp = MessagePackDocument(validator='soft'), MessagePackDocument()
     elif family == 'soap11_lxml':
         inp, outp = Soap11(validator='lxml'), Soap11()
     elif family == 'xml':
@@ -286,10 +295,13 @@ def make_wsgi(family, calls):
 
 def requests_for(family):
     """name -> (method, path, query, body, content type)"""
-    if family in ('soap11', 'soap11_lxml', 'xml'):
+    if family in ('soap11', 'soap11_lxml', 'xml', 'soap12'):
         def wrap(b):
             if family == 'xml':
                 return b.replace('>', ' xmlns:tns="%s">' % TNS, 1).encode()
+            if family == 'soap12':
+                from .pipeline import SOAP12_NS
+                return soap_env(SOAP12_NS, b)
             return soap_env(SOAP11_NS, b)
         return {
             'echo': ('POST', '/', '', wrap('<tns:echo><tns:i>5</tns:i><tns:s>abc</tns:s></tns:echo>'), 'text/xml'),
@@ -301,11 +313,22 @@ def requests_for(family):
             'invalid': ('POST', '/', '', wrap('<tns:echo><tns:i>five</tns:i><tns:s>abc</tns:s></tns:echo>'), 'text/xml'),
             'invalid2': ('POST', '/', '', wrap('<tns:items><tns:n>many</tns:n></tns:items>'), 'text/xml'),
             'wsdl': ('GET', '/', 'wsdl', b'', 'text/plain'),
+            # SOAP 1.1 section 5 multi-reference values: the argument refers to an element of the same Body by id
+            'multiref': ('POST', '/', '', wrap('<tns:echo><tns:i href="#a1"/><tns:s href="#a2"/></tns:echo><tns:x id="a1">41</tns:x>'
+                                               '<tns:x id="a2">first</tns:x>'), 'text/xml'),
+            'multiref2': ('POST', '/', '', wrap('<tns:echo><tns:i href="#a1"/><tns:s href="#a2"/></tns:echo><tns:x id="a1">42</tns:x>'
+                                                '<tns:x id="a2">second</tns:x>'), 'text/xml'),
         }
-    if family == 'json':
+    if family in ('json', 'yaml', 'msgpack'):
         import json
-        J = lambda d: json.dumps(d).encode()
-        return {
+        J, ctype_ = (lambda d: json.dumps(d).encode()), 'application/json'
+        if family == 'yaml':
+            import yaml
+            J, ctype_ = (lambda d: yaml.safe_dump(d).encode()), 'text/yaml'
+        elif family == 'msgpack':
+            import msgpack
+            J, ctype_ = (lambda d: msgpack.packb(d)), 'application/x-msgpack'
+        return {k: v[:4] + (ctype_,) for k, v in {
             'echo': ('POST', '/', '', J({'echo': {'i': 5, 's': 'abc'}}), 'application/json'),
             'echo2': ('POST', '/', '', J({'echo': {'i': -9, 's': 'zz'}}), 'application/json'),
             'item': ('POST', '/', '', J({'item': {'it': {'name': 'a', 'price': '1.5'}}}), 'application/json'),
@@ -313,7 +336,7 @@ def requests_for(family):
             'fail': ('POST', '/', '', J({'fail': {'i': 4}}), 'application/json'),
             'invalid': ('POST', '/', '', J({'echo': {'i': 'five', 's': 'abc'}}), 'application/json'),
             'invalid2': ('POST', '/', '', J({'items': {'n': [1]}}), 'application/json'),
-        }
+        }.items()}
     return {
         'echo': ('GET', '/echo', 'i=5&s=abc', b'', 'text/plain'),
         'echo2': ('GET', '/echo', 'i=-9&s=zz', b'', 'text/plain'),
@@ -371,7 +394,23 @@ native = _Native()
 def roots_of(wsgi):
     from spyne.util.memo import memoize
     return [wsgi, wsgi.app, wsgi.app.in_protocol, wsgi.app.out_protocol, wsgi.app.interface, memoize.registry] + \
-        list(wsgi.app.services)
+        list(wsgi.app.services) + process_wide_state()
+
+
+def process_wide_state():
+    """What every request of the process shares whatever application it belongs to: the classes of the package (class-level
+    attributes, e.g. of the context classes a request instantiates) and the mutable module-level objects."""
+    import sys
+    out = []
+    for name, mod in list(sys.modules.items()):
+        if mod is None or not (name == 'spyne' or name.startswith('spyne.')) or name.startswith('spyne.test'):
+            continue
+        for k, v in list(vars(mod).items()):
+            if isinstance(v, type) and getattr(v, '__module__', None) == name:
+                out.append(v)
+            elif isinstance(v, (dict, list, set)) and not k.startswith('__'):
+                out.append(v)
+    return out
 
 
 def names_of(wsgi):
@@ -457,9 +496,17 @@ def _store_with_prev(self, kind, obj, key, value):
 
 SharedMonitor.store = _store_with_prev
 
-REQUEST_KINDS = {'soap11': ['echo', 'item', 'items', 'fail', 'invalid', 'wsdl'], 'soap11_lxml': ['echo', 'item', 'invalid', 'fail'],
+REQUEST_KINDS = {'soap11': ['echo', 'multiref', 'item', 'items', 'fail', 'invalid', 'multiref2', 'wsdl'], 'soap11_lxml': ['echo', 'item', 'invalid', 'fail'],
                  'xml': ['echo', 'item', 'items', 'fail', 'invalid'], 'json': ['echo', 'item', 'items', 'fail', 'invalid'],
-                 'http': ['echo', 'item', 'items', 'fail', 'invalid']}
+                 'http': ['echo', 'item', 'items', 'fail', 'invalid'], 'soap12': ['echo', 'items', 'fail', 'invalid'],
+                 'yaml': ['echo', 'item', 'fail', 'invalid'], 'msgpack': ['echo', 'item', 'fail', 'invalid']}
+
+
+def _all_protocol_classes():
+    from spyne.protocol.soap import Soap12
+    from spyne.protocol.yaml import YamlDocument
+    from spyne.protocol.msgpack import MessagePackDocument
+    return [Soap11, Soap12, XmlDocument, JsonDocument, HttpRpc, YamlDocument, MessagePackDocument]
 
 
 def _mk_discipline(family):
@@ -482,8 +529,7 @@ def _mk_discipline(family):
         with_prot_attrs = c.choose([False, True], 'prot_attrs')
         PROT_ATTRS.clear()
         if with_prot_attrs:
-            PROT_ATTRS.update({Soap11: dict(min_occurs=1), XmlDocument: dict(min_occurs=1), JsonDocument: dict(min_occurs=1),
-                               HttpRpc: dict(min_occurs=1)})
+            PROT_ATTRS.update({P: dict(min_occurs=1) for P in _all_protocol_classes()})
         try:
             wsgi = make_wsgi(family, [])
         finally:
@@ -657,13 +703,14 @@ SWITCH_FUNCTIONS = [('spyne/protocol/_base.py', 'get_cls_attrs'), ('spyne/protoc
                     ('spyne/model/complex.py', 'get_flat_type_info'), ('spyne/model/complex.py', '_get_flat_type_info')]
 
 
-def _mk_interference(family):
-    @obligation('C12.interference.%s' % family,
+def _mk_interference(family, thorough_only=False):
+    @obligation('C12.interference.%s' % family, thorough_only=thorough_only, replay='best_effort',
                 targets=['spyne.server.wsgi:WsgiApplication.__call__', 'spyne.protocol._base:ProtocolMixin.get_cls_attrs',
                          'spyne.protocol._base:ProtocolMixin.sort_fields', 'spyne.util.cdict:cdict.__getitem__'],
                 bounded="preemption bound 1: request A (interpreted, cold instance) is suspended right after its k-th store "
                         "into shared state outside a lock, for every k; request B runs completely on the same instance; A "
-                        "resumes; pairs (A, B) from the request kinds of the family; at most 36 switch points per pair",
+                        "resumes; pairs (A, B) from the request kinds of the family; at most 36 switch points per pair (quick tier; "
+                        "120 in the thorough tier, which also covers soap12 / xml / yaml / msgpack)",
                 desc="R under real interleavings: with the interpreter as scheduler, B's response equals the response B gets "
                      "alone and A's response equals the response A gets alone, whatever shared write of A the switch follows",
                 assumptions=["the interference is a complete request (coarser switches are subsumed by G1-G4)",
@@ -678,8 +725,7 @@ def _mk_interference(family):
         def mk():
             PROT_ATTRS.clear()
             if with_prot_attrs:
-                PROT_ATTRS.update({Soap11: dict(min_occurs=1), XmlDocument: dict(min_occurs=1), JsonDocument: dict(min_occurs=1),
-                                   HttpRpc: dict(min_occurs=1)})
+                PROT_ATTRS.update({P: dict(min_occurs=1) for P in _all_protocol_classes()})
             try:
                 return make_wsgi(family, [])
             finally:
@@ -693,9 +739,10 @@ def _mk_interference(family):
             from pyvc import sched
             n = sched.count_events(lambda: serve(native, mk(), reqs[a]), SWITCH_FUNCTIONS)
             ks = list(range(1, n + 1))
-            if n > 40:
-                step = max(1, n // 40)
-                ks = ks[::step][:40]
+            cap = 120 if c.thorough else 40
+            if n > cap:
+                step = max(1, n // cap)
+                ks = ks[::step][:cap]
             bad_a, bad_b = [], []
             for k in ks:
                 w = mk()
@@ -719,10 +766,11 @@ def _mk_interference(family):
         if n == 0:
             return
         ks = list(range(1, n + 1))
-        if n > 36:
-            # keep the exploration bounded: the first 12 writes and 24 evenly spaced later ones
-            step = max(1, (n - 12) // 24)
-            ks = ks[:12] + ks[12::step][:24]
+        cap = 120 if c.thorough else 36
+        if n > cap:
+            # keep the exploration bounded: the first 12 writes and evenly spaced later ones
+            step = max(1, (n - 12) // (cap - 12))
+            ks = ks[:12] + ks[12::step][:cap - 12]
         k = c.choose(ks, 'after_shared_write')
         wsgi = mk()
         state = dict(count=0, armed=False, b=None, where=None)
@@ -761,3 +809,5 @@ def _mk_interference(family):
 
 for _f in ('soap11', 'json', 'http'):
     _mk_interference(_f)
+for _f in ('soap12', 'xml', 'yaml', 'msgpack'):
+    _mk_interference(_f, thorough_only=True)
